@@ -202,23 +202,31 @@ Definition adjacency_ok (items : list item) : bool := adjacency_ok_from cfg0 [] 
 (** the lowest limit among the [subexpr] calls still open when the text of [e] ends *)
 Fixpoint rp (e : expr) : N :=
   match e with
-  | EAtom _ | EParen _ => 100
+  | EAtom _ | EParen _ | ECast _ _ => 100
   | EBin o _ r => N.min (rprio o) (rp r)
   | EUn _ x => N.min UNARY_PRIORITY (rp x)
   end.
 
-(** [wp e]: the explicit parentheses of [e] are enough for the reference priorities, i.e.
+(** the text ends with a cast to a type name without type parameters *)
+Definition ends_bare (toks : list ptok) : bool :=
+  match last toks KLp with KCast CBare => true | _ => false end.
+
+Definition is_lt (o : binop) : bool := match o with LowerThan => true | _ => false end.
+
+(** [wp e]: the explicit parentheses of [e] are enough for the reference grammar, i.e.
     printing [e] without adding any parenthesis is unambiguous *)
 Fixpoint wp (e : expr) : bool :=
   match e with
   | EAtom _ => true
   | EParen x => wp x
+  | ECast x _ => wp x && match x with EAtom _ | EParen _ => true | _ => false end
   | EUn _ x => wp x && match x with EBin o _ _ => UNARY_PRIORITY <? lprio o | _ => true end
   | EBin o l r =>
     wp l && wp r
     && match l with EBin o' _ _ => lprio o <=? lprio o' | _ => true end
     && (lprio o <=? rp l)
     && match r with EBin o' _ _ => rprio o <? lprio o' | _ => true end
+    && negb (is_lt o && ends_bare (print_plain l))
   end.
 
 (** [prec_ok P]: the finite condition on the dumped predicates: wherever they do NOT ask for
@@ -229,7 +237,8 @@ Definition prec_ok (P : ptable) : bool :=
       (left_bin P o o' || ((lprio o <=? lprio o') && (lprio o <=? rprio o') && (lprio o <=? UNARY_PRIORITY)))
       && (right_bin P o o' || (rprio o <? lprio o'))) binops
     && forallb (fun u => left_un P o u || (lprio o <=? UNARY_PRIORITY)) unops) binops
-  && forallb (fun u => forallb (fun o' => un_bin P u o' || (UNARY_PRIORITY <? lprio o')) binops) unops.
+  && forallb (fun u => forallb (fun o' => un_bin P u o' || (UNARY_PRIORITY <? lprio o')) binops) unops
+  && cast_bin P && cast_un P && cast_cast P && left_cast P LowerThan CBare.
 
 (** * statement boundary (stage 3): the rule deciding whether a ";" is needed
 
@@ -246,6 +255,7 @@ Fixpoint ends_prefix (e : expr) : bool :=
   | EBin _ _ r => ends_prefix r
   | EUn _ x => ends_prefix x
   | EParen _ => true
+  | ECast _ _ => false
   end.
 
 Definition closes_prefix (toks : list ptok) : bool :=
